@@ -6,6 +6,7 @@ package main
 import (
 	"go/token"
 	"go/types"
+	"path/filepath"
 	"strings"
 
 	"golang.org/x/tools/go/ssa"
@@ -323,7 +324,9 @@ func init() {
 			for _, n := range c10Funcs {
 				ruleWalk(c, wk, n)
 			}
-			return []*RuleResult{ro, mc, so, wk}
+			li := ruleLocalIdx(c, func(f string) bool { return filepath.Base(filepath.Dir(f)) == "graph" }, false)
+			li.MinInst = 4
+			return []*RuleResult{ro, mc, so, wk, li}
 		},
 		controls: func(ctl *Ctx) []*RuleResult {
 			mc := &RuleResult{Rule: "MAKECAP"}
@@ -336,7 +339,7 @@ func init() {
 			wk := &RuleResult{Rule: "WALK"}
 			ruleWalk(ctl, wk, "compctl.BadWalkShared")
 			ruleWalk(ctl, wk, "compctl.GoodWalkSnapshot")
-			return []*RuleResult{mc, so, wk}
+			return []*RuleResult{mc, so, wk, ruleLocalIdx(ctl, func(f string) bool { return filepath.Base(f) == "idxctl.go" }, false)}
 		},
 	})
 }
@@ -663,5 +666,90 @@ func rulePartial(c *Ctx, files func(string) bool, exportedOnly bool) *RuleResult
 		}
 	}
 	r.inst("%d functions scanned for make sizes and divisors", nf)
+	return r
+}
+
+// ruleLocalIdx: an index into a slice the function itself allocated with make([]T, size) - a result
+// table sized by the order of the graph, say - is within the allocation: a constant index k needs
+// size > k (r[0] = n on the graph with no vertices), any other index is proved below the size
+// (upper bound only: the lower bound of a value read back from a work list is not this rule's).
+// upperAll=false restricts the rule to constant indices.
+func ruleLocalIdx(c *Ctx, files func(string) bool, upperAll bool) *RuleResult {
+	r := &RuleResult{Rule: "LOCALIDX", Doc: "an index into a slice allocated by the function itself with make([]T, size) is proved below size (constant indices: size > k)", MinInst: 0}
+	nf := 0
+	for _, fn := range c.Funcs {
+		if fn.Synthetic != "" || fn.Blocks == nil || fn.Parent() != nil || !files(c.Fset.Position(fn.Pos()).Filename) {
+			continue
+		}
+		if o := fn.Object(); o == nil || !o.Exported() {
+			continue
+		}
+		nf++
+		var P *Prover
+		for _, b := range fn.Blocks {
+			for _, in := range b.Instrs {
+				ia, ok := in.(*ssa.IndexAddr)
+				if !ok {
+					continue
+				}
+				mk, ok := ia.X.(*ssa.MakeSlice)
+				if !ok {
+					continue
+				}
+				k, isK := constInt(ia.Index)
+				if !isK && !upperAll {
+					continue
+				}
+				if lk, isLK := constInt(mk.Len); isLK && isK && k < lk {
+					continue
+				}
+				if P == nil {
+					P = NewProver(c, fn)
+					nonNegativeOrder(P, fn)
+					for _, p := range fn.Params {
+						if isInt(p.Type()) {
+							P.global = append(P.global, P.poly(p).scale(-1))
+						}
+					}
+				}
+				{
+					// the size is written in terms of the inputs: integer parameters, N() / M() of a graph parameter
+					direct := true
+					P.atomsOf(P.poly(mk.Len), func(a *Atom) {
+						if a.kind != aVal {
+							direct = false
+							return
+						}
+						switch v := a.val.(type) {
+						case *ssa.Parameter:
+						case *ssa.Call:
+							if !v.Call.IsInvoke() || (v.Call.Method.Name() != "N" && v.Call.Method.Name() != "M") {
+								direct = false
+							} else if _, isP := v.Call.Value.(*ssa.Parameter); !isP {
+								direct = false
+							}
+						default:
+							direct = false
+						}
+					})
+					if !direct {
+						continue
+					}
+				}
+				src := c.srcAt(ia.Pos())
+				if src == "" {
+					src = valName(ia)
+				}
+				goal := P.poly(ia.Index).add(P.poly(mk.Len), -1).add(constP(1), 1)
+				r.inst("%s: %s within make(%s)", c.short(fn), src, P.showTerm(P.poly(mk.Len)))
+				ok2 := P.Prove(goal, b)
+				r.oblig(ok2)
+				if !ok2 {
+					r.find(c.short(fn)+":"+src+" beyond the allocation", c.instrPos(ia), "%s: %s: the index %s is not proved below the size %s of the slice allocated at %s: index out of range for the smallest graphs", c.short(fn), src, P.showTerm(P.poly(ia.Index)), P.showTerm(P.poly(mk.Len)), c.pos(mk.Pos()))
+				}
+			}
+		}
+	}
+	r.inst("%d exported functions scanned for indices into their own allocations", nf)
 	return r
 }
